@@ -841,3 +841,81 @@ Proof. reflexivity. Qed.
     round-trip theorem applies *)
 Lemma encrypt_packet_present E key f : encrypt_packet E true key f = encrypt E key f.
 Proof. reflexivity. Qed.
+
+(** * the manager instance: each call depends only on its own frame *)
+Section Instance.
+  Variable E : bytes -> bytes -> bytes.
+
+  Lemma csl_st_params s f :
+    fst (csl_st s f) = fst (check_security_level f)
+    /\ self_params (snd (csl_st s f)) = snd (check_security_level f).
+  Proof.
+    unfold csl_st, check_security_level. destruct (f_lvl f =? 0); split; reflexivity.
+  Qed.
+
+  (** the result AND the state left behind do not depend on the state found *)
+  Lemma encrypt_st_indep key s s' f : encrypt_st E key s f = encrypt_st E key s' f.
+  Proof.
+    unfold encrypt_st, csl_st. destruct (f_lvl f =? 0); reflexivity.
+  Qed.
+
+  Lemma decrypt_st_indep key s s' f : decrypt_st E key s f = decrypt_st E key s' f.
+  Proof.
+    unfold decrypt_st, csl_st. destruct (f_lvl f =? 0); reflexivity.
+  Qed.
+
+  (** and the result is the one of the stateless transcription (a fresh instance) *)
+  Lemma encrypt_st_fresh key s f : fst (encrypt_st E key s f) = encrypt E key f.
+  Proof.
+    unfold encrypt_st, encrypt, encrypt_with, csl_st, check_security_level.
+    destruct (f_lvl f =? 0); cbn [fst snd self_params set_auth set_nonce set_enc set_int set_M set_patched
+                                   ms_M ms_nonce ms_auth ms_enc ms_patched ms_int sp_M sp_enc].
+    - cbn [orb]. destruct (Nat.ltb _ 7); [reflexivity|]. unfold ccm_encrypt. reflexivity.
+    - rewrite orb_false_r.
+      destruct (if level_int (f_lvl f) then level_M (f_lvl f) else 0%nat); [reflexivity|].
+      destruct (Nat.ltb _ 7); [reflexivity|]. unfold ccm_encrypt. reflexivity.
+  Qed.
+
+  Lemma decrypt_st_fresh key s f : fst (decrypt_st E key s f) = decrypt E key f.
+  Proof.
+    unfold decrypt_st, decrypt, decrypt_with, csl_st, check_security_level.
+    destruct (f_lvl f =? 0); cbn [fst snd self_params set_auth set_nonce set_enc set_int set_M set_patched
+                                   ms_M ms_nonce ms_auth ms_enc ms_patched ms_int sp_M sp_enc].
+    - destruct (extract _ _) as [ct mic]. cbn [orb]. destruct (Nat.ltb _ 7); [reflexivity|].
+      destruct (ccm_decrypt _ _ _ _ _ _ _ _); reflexivity.
+    - destruct (extract _ _) as [ct mic]. rewrite orb_false_r.
+      destruct (if level_int (f_lvl f) then level_M (f_lvl f) else 0%nat); [reflexivity|].
+      destruct (Nat.ltb _ 7); [reflexivity|].
+      destruct (ccm_decrypt _ _ _ _ _ _ _ _); reflexivity.
+  Qed.
+
+  Lemma do_call_indep key s s' c : do_call E key s c = do_call E key s' c.
+  Proof.
+    destruct c as [f|f]; cbn [do_call].
+    - rewrite (encrypt_st_indep key s s'). reflexivity.
+    - rewrite (decrypt_st_indep key s s'). reflexivity.
+  Qed.
+
+  Lemma do_call_fresh key s c : fst (do_call E key s c) = fresh_call E key c.
+  Proof.
+    destruct c as [f|f]; cbn [do_call fresh_call].
+    - rewrite <- (encrypt_st_fresh key s f). destruct (encrypt_st E key s f). reflexivity.
+    - rewrite <- (decrypt_st_fresh key s f). destruct (decrypt_st E key s f). reflexivity.
+  Qed.
+
+  (** every history of calls on one instance, from any initial state: call number i returns
+      what a fresh instance returns for that call (induction over the sequence) *)
+  Lemma run_calls_stateless key cs : forall s, fst (run_calls E key s cs) = map (fresh_call E key) cs.
+  Proof.
+    induction cs as [|c r IH]; intros s; cbn [run_calls map]; [reflexivity|].
+    pose proof (do_call_fresh key s c) as Hc.
+    destruct (do_call E key s c) as [o s1]. specialize (IH s1).
+    destruct (run_calls E key s1 r) as [os s2]. cbn [fst] in *. rewrite Hc, IH. reflexivity.
+  Qed.
+
+  (** in particular: whatever was processed before, the last call of a history gives the same
+      result and leaves the same state as on a fresh instance *)
+  Lemma run_calls_last key before c s :
+    fst (run_calls E key s (before ++ [c])) = map (fresh_call E key) before ++ [fresh_call E key c].
+  Proof. rewrite run_calls_stateless, map_app. reflexivity. Qed.
+End Instance.
